@@ -56,11 +56,12 @@ VARIABLES cont,     \* Loc -> (version -> set of rows); <<>> when the location d
           tag,      \* tag -> <<location, version>> | NoRef
           tagSnap,  \* ghost: tag -> what the tag read when it was created / last updated
           org,      \* ghost: row -> location that wrote it
+          dep,      \* location -> locations it inherited from, transitively (base paths: data AND deletion files)
           nextRow, steps,
           last,     \* the step that produced this state: [op, subj, src, v]
           hist      \* ghost: the scenario (hidden by VIEW)
-vars == <<cont, files, live, par, tag, tagSnap, org, nextRow, steps, last, hist>>
-view == <<cont, files, live, par, tag, tagSnap, org, nextRow, steps, last>>
+vars == <<cont, files, live, par, tag, tagSnap, org, dep, nextRow, steps, last, hist>>
+view == <<cont, files, live, par, tag, tagSnap, org, dep, nextRow, steps, last>>
 
 Man(x, v) == [own |-> x, dir |-> "_versions", id |-> v]
 DataOf(r, o) == [own |-> o[r], dir |-> "data", id |-> IF r <= 3 THEN 0 ELSE r]
@@ -82,6 +83,7 @@ Init ==
   /\ live = {} /\ par = [n \in Names |-> NoRef]
   /\ tag = [t \in TagNames |-> NoRef] /\ tagSnap = [t \in TagNames |-> {}]
   /\ org = [r \in 1..MaxRow |-> MAIN]
+  /\ dep = [x \in Locs |-> {}]
   /\ nextRow = 4 /\ steps = 0
   /\ last = [op |-> "init", subj |-> MAIN, src |-> MAIN, v |-> 1]
   /\ hist = <<[op |-> "init"]>>
@@ -100,7 +102,7 @@ AppendRow(x) ==
      /\ files' = files \cup {Man(x, nv), [own |-> x, dir |-> "data", id |-> r]}
      /\ nextRow' = r + 1
      /\ Step([op |-> "append", on |-> x, row |-> r], [op |-> "append", subj |-> x, src |-> x, v |-> nv])
-  /\ UNCHANGED <<live, par, tag, tagSnap>>
+  /\ UNCHANGED <<live, par, tag, tagSnap, dep>>
 
 DeleteRow(x) ==
   /\ steps < MaxSteps /\ "write" \in OpKinds /\ Writable(x)
@@ -109,7 +111,7 @@ DeleteRow(x) ==
        /\ cont' = [cont EXCEPT ![x] = @ @@ (nv :> (cont[x][lv] \ {r}))]
        /\ files' = files \cup {Man(x, nv)}
        /\ Step([op |-> "delete", on |-> x, row |-> r], [op |-> "delete", subj |-> x, src |-> x, v |-> nv])
-  /\ UNCHANGED <<live, par, tag, tagSnap, org, nextRow>>
+  /\ UNCHANGED <<live, par, tag, tagSnap, org, dep, nextRow>>
 
 (***************************************************************************)
 (* Branches                                                                *)
@@ -125,13 +127,15 @@ CreateBranch(n) ==
        /\ cont' = [cont EXCEPT ![n] = (v :> Copied(s, v, via))]
        /\ files' = files \cup {Man(n, v)}
        /\ live' = live \cup {n} /\ par' = [par EXCEPT ![n] = <<s, v>>]
+       /\ dep' = [dep EXCEPT ![n] = {s} \cup dep[s]]
        /\ Step([op |-> "create_branch", name |-> n, src |-> s, v |-> v],
                [op |-> "create_branch", subj |-> n, src |-> s, v |-> v])
   /\ UNCHANGED <<tag, tagSnap, org, nextRow>>
 
-\* nobody else reads files of n, and no tag names a version of n
+\* nobody else was created from n (a descendant may reference data and deletion files of n through base
+\* paths), and no tag names a version of n: what deleting a branch does to its dependents is left open
 NoDependents(n) ==
-  /\ \A x \in Locs \ {n} : \A v \in Versions(files, x) : \A f \in Needs(cont, org, x, v) : f.own # n
+  /\ \A x \in Locs \ {n} : HasLoc(files, x) => n \notin dep[x]
   /\ \A t \in TagNames : IF tag[t] = NoRef THEN TRUE ELSE tag[t][1] # n
 
 DeleteBranch(n) ==
@@ -143,7 +147,7 @@ DeleteBranch(n) ==
            ELSE {f \in files : f.own = n}                      \* exactly the branch's own storage
      IN /\ files' = files \ removed
         /\ cont' = [x \in Locs |-> IF x = n THEN <<>> ELSE cont[x]]
-        /\ live' = live \ {n} /\ par' = [par EXCEPT ![n] = NoRef]
+        /\ live' = live \ {n} /\ par' = [par EXCEPT ![n] = NoRef] /\ dep' = [dep EXCEPT ![n] = {}]
         /\ Step([op |-> "delete_branch", name |-> n], [op |-> "delete_branch", subj |-> n, src |-> n, v |-> 0])
   /\ UNCHANGED <<tag, tagSnap, org, nextRow>>
 
@@ -157,12 +161,12 @@ SetTag(t, isNew) ==
        /\ tag' = [tag EXCEPT ![t] = <<s, v>>] /\ tagSnap' = [tagSnap EXCEPT ![t] = Read(s, v)]
        /\ Step([op |-> IF isNew THEN "create_tag" ELSE "update_tag", tag |-> t, src |-> s, v |-> v],
                [op |-> "tag", subj |-> REFS, src |-> s, v |-> v])
-  /\ UNCHANGED <<cont, files, live, par, org, nextRow>>
+  /\ UNCHANGED <<cont, files, live, par, org, dep, nextRow>>
 DeleteTag(t) ==
   /\ steps < MaxSteps /\ "tag" \in OpKinds /\ tag[t] # NoRef
   /\ tag' = [tag EXCEPT ![t] = NoRef] /\ tagSnap' = [tagSnap EXCEPT ![t] = {}]
   /\ Step([op |-> "delete_tag", tag |-> t], [op |-> "tag", subj |-> REFS, src |-> MAIN, v |-> 0])
-  /\ UNCHANGED <<cont, files, live, par, org, nextRow>>
+  /\ UNCHANGED <<cont, files, live, par, org, dep, nextRow>>
 
 (***************************************************************************)
 (* Shallow clones                                                          *)
@@ -173,6 +177,7 @@ ShallowClone(c) ==
        /\ Read(s, v) # ERR /\ Copied(s, v, via) # ERR
        /\ cont' = [cont EXCEPT ![c] = (v :> Copied(s, v, via))]
        /\ files' = files \cup {Man(c, v)}
+       /\ dep' = [dep EXCEPT ![c] = {s} \cup dep[s]]
        /\ Step([op |-> "clone", clone |-> c, src |-> s, v |-> v], [op |-> "clone", subj |-> c, src |-> s, v |-> v])
   /\ UNCHANGED <<live, par, tag, tagSnap, org, nextRow>>
 
@@ -192,7 +197,7 @@ Cleanup(x) ==
      IN /\ oldM \cup oldD # {}
         /\ files' = files \ (oldM \cup oldD)
         /\ Step([op |-> "cleanup", on |-> x], [op |-> "cleanup", subj |-> x, src |-> x, v |-> 0])
-  /\ UNCHANGED <<cont, live, par, tag, tagSnap, org, nextRow>>
+  /\ UNCHANGED <<cont, live, par, tag, tagSnap, org, dep, nextRow>>
 
 Next ==
   \/ \E x \in Locs : AppendRow(x) \/ DeleteRow(x) \/ Cleanup(x)
@@ -228,6 +233,19 @@ DeleteRemovesAllOwn == [][last'.op = "delete_branch" => \A f \in files' : f.own 
 \* every step touches only storage of its subject
 OnlyOwnStorageTouched ==
   [][\A f \in (files \ files') \cup (files' \ files) : f.own = last'.subj]_vars
+
+\* The same properties for the as-built configurations: a violating step prints its history as a
+\* witness scenario ("WIT"), which the check replays on the real code.
+Wit == PrintT(<<"WIT", ToJson(hist')>>) /\ FALSE
+RefResolvesW == RefResolves \/ (PrintT(<<"WIT", ToJson(hist)>>) /\ FALSE)
+IsolatedStep(onlyBranches) ==
+  \A x \in Locs : (x # last'.subj /\ (onlyBranches => last'.subj # MAIN)) =>
+     \A v \in Versions(files, x) : ReadIn(cont', files', org', x, v) = Read(x, v)
+BranchIsolationW == [][IsolatedStep(FALSE) \/ Wit]_vars
+\* the literal reading of the property: the step is on a named branch or a shallow clone, not on the main table
+BranchIsolationOnBranchW == [][IsolatedStep(TRUE) \/ Wit]_vars
+DeleteRemovesOnlyOwnW == [][(last'.op = "delete_branch" => \A f \in files \ files' : f.own = last'.subj) \/ Wit]_vars
+DeleteRemovesAllOwnW == [][(last'.op = "delete_branch" => \A f \in files' : f.own # last'.subj) \/ Wit]_vars
 
 \* Scenario export: every maximal history is printed once (GEN configurations)
 Done == steps = MaxSteps
